@@ -43,7 +43,11 @@ def gen_matrix(rng, n):
 def gen_case(rng, max_n):
     n = rng.choice([1, 2, 2, 3, 3, 4, 4, 5, 5, 6, 7, 8][: max(3, max_n + 4)])
     n = min(n, max_n)
+    meth = rng.choice(METHODS)
     kind, m = gen_matrix(rng, n)
+    while meth == "ward" and kind == "neartie":
+        # 'ward' squares the distances: the square of a near-tie value needs more than 53 bits
+        kind, m = gen_matrix(rng, n)
     entries = sorted({x for r in m for x in r})
     def thr():
         c = rng.random()
@@ -53,7 +57,6 @@ def gen_case(rng, max_n):
             return rng.choice(THRESH)           # decimal thresholds, passed as decimals
         return rng.choice(GRID)
     t1, t2 = sorted([thr(), thr()])
-    meth = rng.choice(METHODS)
     return {"method": meth, "n": n, "kind": kind, "matrix": m, "t1": t1, "t2": t2}
 
 
